@@ -135,3 +135,74 @@ func (e *Engine) AxiomsConsistent(pkgPath string) *FuncReport {
 	}
 	return rep
 }
+
+// InvMethod checks that an exported method that has no contract in a module preserves the module's package
+// invariants: everything is inlined, loops are cut by their syntactic frame (sweep mode), the invariants are
+// assumed on entry and asserted on every normal exit. Methods that do not write the keys an invariant reads pass
+// at once; others need a contract in the module.
+func (e *Engine) InvMethod(pkgPath string, fn *types.Func, sp *spec.File) (rep *FuncReport, err error) {
+	defer func() {
+		if r := recover(); r != nil {
+			err = fmt.Errorf("%s: %v", fn.Name(), r)
+		}
+	}()
+	e.bind()
+	e.RegisterStructs(pkgPath)
+	pkg := e.Pkgs[pkgPath]
+	decl := e.funcs[fn]
+	e.consts = nil
+	e.fresh = 0
+	isp := &spec.File{Pures: sp.Pures, Folds: sp.Folds, Funcs: map[string]*spec.FuncSpec{}, UFuns: sp.UFuns, Axioms: sp.Axioms, Invs: sp.Invs}
+	v := &verifier{e: e, sp: isp, obls: map[string]*Obligation{}, pkg: pkg}
+	names, objs := paramNames(decl, pkg.TypesInfo)
+	st := &State{vars: map[types.Object]Val{}, store: sx.Atom("store0"), notifs: spec.LogVal{Base: "notifs0"}, xcalls: spec.LogVal{Base: "xcalls0"}}
+	args := make([]Val, len(objs))
+	for i, o := range objs {
+		ty := e.typeOf(o.Type())
+		if ty.K == spec.KUnit {
+			args[i] = unit()
+			st.vars[o] = args[i]
+			continue
+		}
+		c := sx.Atom("p_" + names[i])
+		e.consts = append(e.consts, smt.Var{Name: c.A, Sort: ty.Sort()})
+		args[i] = Val{TV: spec.TV{T: c, Ty: ty}}
+		st.vars[o] = args[i]
+		if ty.K == spec.KNB {
+			v.reqs = append(v.reqs, sx.Implies(sx.App("isnull", c), sx.App("=", sx.App("bv", c), sx.Str(""))))
+		}
+	}
+	v.names, v.args = names, args
+	v.pre = v.envAt(st, names, args)
+	for _, inv := range sp.Invs {
+		v.reqs = append(v.reqs, v.pre.Tr(inv.Body).T)
+	}
+	base := pkg.Types.Name() + "." + fn.Name()
+	var faults []Exit
+	fr := &frame{fn: fn, pkg: pkg, info: pkg.TypesInfo, exits: &faults, ver: v}
+	nexits := 0
+	record := func(st *State) {
+		nexits++
+		env := v.envAt(st, names, args)
+		env.Old = v.pre
+		for _, inv := range sp.Invs {
+			for _, g := range smt.SplitGoal(env.Tr(inv.Body).T) {
+				v.add(fmt.Sprintf("%s#inv.%s", base, inv.Name), inv.Tags, inv.Name+" (method without contract in this module: everything inlined, loops cut by frame)", v.query(st, nil, g))
+			}
+		}
+	}
+	fr.onRet = func(st *State, rets []Val) { record(st) }
+	e.stmts(fr, st, decl.Body.List, func(st *State) { record(st) })
+	if nexits == 0 {
+		for _, inv := range sp.Invs {
+			v.add(fmt.Sprintf("%s#inv.%s", base, inv.Name), inv.Tags, inv.Name, v.query(st, nil, sx.Bool(true)))
+		}
+	}
+	v.finish()
+	rep = &FuncReport{Func: base, Exits: nexits, FaultExits: len(faults), Exported: true}
+	rep.File, rep.Line, rep.SrcHash = e.srcInfo(pkg, decl)
+	for _, n := range v.order {
+		rep.Obligations = append(rep.Obligations, v.obls[n])
+	}
+	return rep, nil
+}
